@@ -174,7 +174,7 @@ class C20(Prop):
         return out
 
     def oracle(self, tier, rng, suspicious):
-        results = R.run_cases(self.cases(tier, rng))
+        results = self.l1_results or R.run_cases(self.cases(tier, rng))
         mods, own_errors = [], 0
         for r in results:
             if any(p[0] in ('ERR', 'PANIC') for p in r.actual):
